@@ -62,6 +62,7 @@ type Result struct {
 	Goroutines int               `json:"goroutines"`
 	GenOps     int               `json:"gen_ops"`
 	Extra      map[string]any    `json:"extra"`
+	Frozen     []json.RawMessage `json:"frozen"`
 }
 
 // outcome of one process
@@ -105,6 +106,7 @@ type variant struct {
 	Auto      bool
 	Race      bool
 	Extra     map[string]string
+	Freeze    bool
 }
 
 var (
@@ -473,6 +475,9 @@ func mkCfg(seed uint64, prop string, v variant) map[string]any {
 	}
 	if v.Extra != nil {
 		cfg["extra"] = v.Extra
+	}
+	if v.Freeze {
+		cfg["freeze"] = true
 	}
 	cfg["_variant"] = v.Name
 	return cfg
